@@ -327,7 +327,132 @@ func runMemScenario1(sc *memScenario) (memResult, string) {
 	if over == "" {
 		over = bigValueThinningPhase(sc.kind, sc.keys)
 	}
+	if over == "" {
+		over = extremeLeafPhase(sc.kind)
+	}
 	return res, over
+}
+
+// mixedVals: odd ids carry a 64 KiB value, even ids a tiny one.
+var mixedVals = ValCodec[[]byte]{Name: "bytes-mixed",
+	To: func(id int) []byte {
+		n := 16
+		if id%2 == 1 {
+			n = 64 << 10
+		}
+		b := make([]byte, n)
+		b[0], b[1], b[2], b[3] = byte(id), byte(id>>8), byte(id>>16), byte(id>>24)
+		return b
+	},
+	Back: func(b []byte) int { return int(b[0]) | int(b[1])<<8 | int(b[2])<<16 | int(b[3])<<24 }}
+
+// extremeLeafPhase: 128 groups of four keys below one inner node each (for byte strings behind a
+// shared path longer than the inline limit). In every group the smallest - in a second pass the
+// largest - key carries a 64 KiB value, the others tiny ones; the tree is walked once more with
+// every key and a prefix query, then exactly those big entries are deleted, so that every group's
+// node survives with three children. What the tree keeps alive afterwards must be what a tree built
+// from the survivors keeps alive: an inner node that still refers to a deleted extreme leaf (a
+// remembered minimum for path recovery, a cached extreme) shows as 8 MiB here.
+func extremeLeafPhase(kind Kind) string {
+	groupKey := func(g, j int) []byte {
+		switch kk := kind.(type) {
+		case *numKind:
+			return kind.Canon(rawOf(uint64(g)<<8 | uint64(0x40+j)))
+		case *compoundKind:
+			var raw []byte
+			for fi, f := range kk.fields {
+				v := uint64(g)<<8 | uint64(0x40+j)
+				if fi < len(kk.fields)-1 {
+					v = 3
+				}
+				raw = append(raw, f.Canon(rawOf(v))...)
+			}
+			if kk.hasStr {
+				raw = append(raw, fmt.Sprintf("shared-path-segment-%03d/%c", g, 'a'+j)...)
+			}
+			return raw
+		}
+		return kind.Canon([]byte(fmt.Sprintf("%03d/shared-path-segment/%c", g, 'a'+j)))
+	}
+	for _, big := range []int{0, 3} { // the group's smallest, then its largest key carries the big value
+		type ent struct {
+			k  []byte
+			id int
+		}
+		var all, survivors []ent
+		seen := map[string]bool{}
+		for g := 0; g < 128; g++ {
+			for j := 0; j < 4; j++ {
+				k := groupKey(g, j)
+				if seen[kind.Ident(k)] {
+					return "" // the kind is too narrow for 512 distinct keys
+				}
+				seen[kind.Ident(k)] = true
+				e := ent{k, 2 * (4*g + j)}
+				if j == big {
+					e.id++
+				} else {
+					survivors = append(survivors, e)
+				}
+				all = append(all, e)
+			}
+		}
+		measure := func(build func(sub Subject)) (int64, Subject) {
+			base := liveHeap()
+			sub := NewSubject(kind, mixedVals)
+			build(sub)
+			return liveHeap() - base, sub
+		}
+		refDelta, ref := measure(func(sub Subject) {
+			for _, e := range survivors {
+				safeDo(func() { sub.Insert(e.k, e.id) })
+			}
+		})
+		if ref.Size() != len(survivors) {
+			return ""
+		}
+		ref = nil
+		msg := ""
+		for attempt := 0; attempt < 2; attempt++ {
+			histDelta, sub := measure(func(sub Subject) {
+				for _, e := range all {
+					safeDo(func() { sub.Insert(e.k, e.id) })
+				}
+				for _, e := range all { // walk the tree once more with every key
+					safeDo(func() { sub.Insert(e.k, e.id) })
+					safeDo(func() { sub.Search(e.k) })
+					if kind.HasPrefix() && !(kind.Family() == "collation") {
+						safeDo(func() { sub.Prefix(e.k[:len(e.k)-1])(func([]byte, int) bool { return true }) })
+					}
+				}
+				safeDo(func() { sub.Minimum(); sub.Maximum() })
+				for _, e := range all {
+					if e.id%2 == 1 {
+						safeDo(func() { sub.Delete(e.k) })
+					}
+				}
+			})
+			if sub.Size() != len(survivors) {
+				return ""
+			}
+			if histDelta > refDelta+refDelta/4+(1<<20) {
+				which := "smallest"
+				if big == 3 {
+					which = "largest"
+				}
+				msg = fmt.Sprintf("128 groups of four keys, the %s of each with a 64 KiB value; after deleting exactly those the tree keeps %d KiB alive, a tree built from the survivors keeps %d KiB", which, histDelta>>10, refDelta>>10)
+				runtime.KeepAlive(sub)
+				continue
+			}
+			runtime.KeepAlive(sub)
+			msg = ""
+			break
+		}
+		if msg != "" {
+			return msg
+		}
+	}
+	return ""
 }
 
 // bigValueThinningPhase: the scenario's own key set (so its shapes: long shared paths, wide nodes)
